@@ -111,6 +111,14 @@ def run(path, rlimit=30, multiple_errors=10, threads=8, timeout=900, extra=()):
         except Exception:
             pass
     if vr.get("encountered-vir-error") or (not vr and p.returncode != 0):
+        res["frontend"] = []
+        for d in diags:
+            if d.get("level") != "error":
+                continue
+            for sp in d.get("spans", []):
+                if sp.get("is_primary") and sp.get("file_name", "").endswith(os.path.basename(path)):
+                    res["frontend"].append({"message": d.get("message", ""), "byte_start": sp["byte_start"],
+                                            "byte_end": sp["byte_end"], "line": sp["line_start"]})
         res["undecided"] = "verus front-end error (unsupported construct or type error): " + \
             "; ".join(d.get("message", "") for d in diags if d.get("level") == "error")[:2000]
         return res
@@ -137,6 +145,16 @@ def run(path, rlimit=30, multiple_errors=10, threads=8, timeout=900, extra=()):
         if kind is None:
             res["undecided"] = "unclassified verus error (treated as front-end): " + msg
             continue
+        if kind == "precondition":
+            base = os.path.basename(path)
+            foreign = [sp for sp in spans if not sp.get("file_name", "").endswith(base)]
+            if foreign and not any((sp.get("label") or "").startswith("failed precondition") and sp.get("file_name", "").endswith(base)
+                                   for sp in spans):
+                # the failed precondition is one of vstd's own (typically `f.requires(..)` of a closure passed to Option::map
+                # and friends): the closure carries no contract, which is a limit of the dialect, not a defect of the code
+                res["undecided"] = ("closure / std call without a contract: %s (%s)" %
+                                    (msg, lines[prim[0]["line_start"] - 1].strip()[:200]))
+                continue
         # the function in which the obligation arises = function containing the non-contract span
         body_span = None
         for s in spans:
